@@ -199,7 +199,61 @@ def count_mutations(base_dir, work, src_of, tag, prefix=()):
     return n
 
 
+def many_partitions(ctx):
+    """a plan with more than ten partitions (two-digit partition numbers): partitions re-run, in any order relative
+    to the others, after their neighbours in name (p1 / p10 / p11 ...) completed; one re-run killed and repeated"""
+    import json
+
+    r = ctx.rnd
+    d = os.path.join(ctx.work, "c05many")
+    os.makedirs(d)
+    hdr = [f"##contig=<ID=k{j},length=100000>" for j in range(13)] + ['##FILTER=<ID=PASS,Description="p">',
+           '##INFO=<ID=DP,Number=1,Type=Integer,Description="d">', '##FORMAT=<ID=GT,Number=1,Type=String,Description="g">']
+    recs = [f"k{j}\t{100 + 7 * i}\t.\tA\tT\t.\tPASS\tDP={r.randint(1, 99)}\tGT\t{r.choice(['0/1', '1|1', './.'])}" for j in range(13) for i in range(2)]
+    src = vcfgen.make_indexed(d, "in", vcfgen.vcf_text(hdr, recs, ("s0",)), kind="tbi")
+    P = "vcf2zarr.explode_partition({root!r}, {j})"
+
+    def fresh(name):
+        root = os.path.join(d, name)
+        rc, err = run_cmd(f"vcf2zarr.explode_init({root!r}, [{src!r}], target_num_partitions=30, worker_processes=0)")
+        assert rc == 0, err
+        return root, len(json.load(open(os.path.join(root, "wip/metadata.json")))["partitions"])
+
+    ref, n = fresh("ref.icf")
+    for j in range(n):
+        assert run_cmd(P.format(root=ref, j=j))[0] == 0
+    assert run_cmd(f"vcf2zarr.explode_finalise({ref!r})")[0] == 0
+    ref_values = real_loads(ref)[1]
+    ctx.distribution["many_partitions"] = n
+    for variant in range(ctx.n(2, 6)):
+        root, n2 = fresh(f"h{variant}.icf")
+        order = list(range(n2))
+        r.shuffle(order)
+        redo = [1, 0, r.randrange(n2)] if variant % 2 == 0 else [r.randrange(n2) for _ in range(3)] + [1]
+        hist = [[1, j] for j in order] + [[1, j] for j in redo]
+        doc = dict(history="many-partitions", partitions=n2, order=order, rerun=redo)
+        ctx.case(doc, nontrivial=True)
+        ctx.count("many-partitions")
+        ok = True
+        for j in order:
+            ok = ok and run_cmd(P.format(root=root, j=j))[0] == 0
+        # a re-run that is killed part-way, then the re-runs proper
+        run_cmd(P.format(root=root, j=redo[0]), crash=str(r.randrange(1, 12)), root=root)
+        for j in redo:
+            ok = ok and run_cmd(P.format(root=root, j=j))[0] == 0
+        rc, err = run_cmd(f"vcf2zarr.explode_finalise({root!r})")
+        loads, values = real_loads(root)
+        if not ok or rc != 0:
+            ctx.fail(doc, dict(error=err[-200:]), "re-running partitions of a plan with more than ten partitions, then finalise, failed")
+        elif not loads or values != ref_values:
+            ctx.fail(doc, {}, "re-running the interrupted steps and finalise does not reproduce the store of an uninterrupted run (plan with more than ten partitions)")
+        ctx.traces_validated += 1
+        shutil.rmtree(root, ignore_errors=True)
+    shutil.rmtree(d, ignore_errors=True)
+
+
 def run(ctx):
+    many_partitions(ctx)
     r = ctx.rnd
     base = os.path.join(ctx.work, "c05base")
     os.makedirs(base)
